@@ -24,6 +24,11 @@ def run(chk):
                               Quals={30, 70, 90}, MaxDets=1, MaxIdle=8)
     for kind in ("visual", "batchvisual"):
         tc.replay_visual(chk, "gal-2feat", r, c, kind, 2, "C13", "nt_C13g")
+    # own-area share as a collect gate only (use threshold 0), both tracker kinds
+    r, c = tc.generate_visual(chk, "gal-own-collect", depth=5, Sim=8, OwnUse=0, OwnCollect=50, MaxObs=2, H=2, Slots={1, 2}, Confs={900, 800},
+                              Feats={1}, Quals={90}, MaxDets=2, MaxIdle=8, simulate={"num": 15 if quick else 150, "depth": 6})
+    for kind in ("visual", "batchvisual"):
+        tc.replay_visual(chk, "gal-own-collect", r, c, kind, 2, "C13", "nt_C13g")
     if not quick:
         for m, h in ((8, 10), (5, 4)):
             name = f"gal-sim-m{m}-h{h}"
